@@ -1,1 +1,99 @@
-From CMinx Require Import Base.Str.
+(* Properties/C04.v -- Layout, comments and command-name case do not affect the output.
+   Only theorem statements; proofs are in Proofs/PipelineFacts.v, LexerFacts.v, AggInv.v,
+   CleanFacts.v (LayoutFacts.v extends the whitespace theorems to every piece boundary).
+   The page is a function of the visible token sequence (C04_layout_invariance); the lexer
+   theorems show which edits keep that sequence.  Partial: the CRLF clause is covered by
+   correspondence on LF/CRLF pairs, not by a theorem. *)
+From Coq Require Import String List NArith Bool.
+From CMinx Require Import Base.Str Model.Lexer Model.Parser Model.Aggregator Model.Pipeline
+     Proofs.LexerFacts Proofs.PipelineFacts Proofs.AggInv Proofs.CleanFacts.
+Import ListNotations.
+
+(* any edit that keeps the visible token sequence keeps the page (or the error) *)
+Theorem C04_layout_invariance :
+  forall fl trigger strip_fn strip_mac strip_mem hdrs title m src1 src2,
+    lex_sim (lex src1) (lex src2) ->
+    document_str fl trigger strip_fn strip_mac strip_mem hdrs title m src1
+    = document_str fl trigger strip_fn strip_mac strip_mem hdrs title m src2.
+Proof. exact layout_invariance. Qed.
+Print Assumptions C04_layout_invariance.
+
+(* spaces, tabs and blank lines at the beginning of the (remaining) input are invisible *)
+Theorem C04_leading_whitespace_invisible :
+  forall ws x, forallb (fun c => is_sptab c || is_eol c) ws = true ->
+    match lex (ws ++ x), lex x with
+    | LexOk a, LexOk b => a = b
+    | LexErr _, LexErr _ => True
+    | _, _ => False
+    end.
+Proof. exact lex_leading_ws. Qed.
+Print Assumptions C04_leading_whitespace_invisible.
+
+(* whitespace inserted after an identifier, a parenthesis or a quoted argument, anywhere in a
+   file (between a command name and its parenthesis, inside argument lists, after a command) *)
+Theorem C04_ws_after_identifier :
+  forall x ps name rest ins, reaches x ps (name ++ rest) ->
+    best (name ++ rest) = Some (TIdent, length name) -> ins <> [] -> forallb is_ws ins = true ->
+    lex_sim (lex (concat (map snd ps) ++ name ++ ins ++ rest)) (lex x).
+Proof. exact lex_insert_ws_after_ident_ctx. Qed.
+Print Assumptions C04_ws_after_identifier.
+
+Theorem C04_ws_after_parenthesis :
+  forall x ps c rest ins, reaches x ps ([c] ++ rest) -> c = lpar \/ c = rpar ->
+    forallb is_ws ins = true ->
+    lex_sim (lex (concat (map snd ps) ++ [c] ++ ins ++ rest)) (lex x).
+Proof. exact lex_insert_ws_after_paren_ctx. Qed.
+Print Assumptions C04_ws_after_parenthesis.
+
+Theorem C04_ws_after_quoted_argument :
+  forall x ps q rest ins, reaches x ps (q ++ rest) ->
+    best (q ++ rest) = Some (TQuoted, length q) -> forallb is_ws ins = true ->
+    lex_sim (lex (concat (map snd ps) ++ q ++ ins ++ rest)) (lex x).
+Proof. exact lex_insert_ws_after_quoted_ctx. Qed.
+Print Assumptions C04_ws_after_quoted_argument.
+
+(* the general form: after any piece whose last character cannot start or extend a delimiter *)
+Theorem C04_ws_after_piece :
+  forall x ps u0 l rest ins k,
+    reaches x ps ((u0 ++ [l]) ++ rest) -> good_last l = true -> forallb is_ws ins = true ->
+    best ((u0 ++ [l]) ++ rest) = Some (k, length (u0 ++ [l])) ->
+    best ((u0 ++ [l]) ++ ins ++ rest) = Some (k, length (u0 ++ [l])) ->
+    lex_sim (lex (concat (map snd ps) ++ (u0 ++ [l]) ++ ins ++ rest)) (lex x).
+Proof. exact lex_insert_ws_in_context. Qed.
+Print Assumptions C04_ws_after_piece.
+
+(* a line comment (any text that does not open a bracket) at the start of the remaining input
+   or after a parenthesis is invisible *)
+Theorem C04_line_comment_invisible :
+  forall text rest, comment_text text = true ->
+    lex_sim (lex (line_comment text ++ rest)) (lex rest).
+Proof. exact lex_insert_comment_at_start. Qed.
+Print Assumptions C04_line_comment_invisible.
+
+Theorem C04_line_comment_after_parenthesis :
+  forall c text rest, c = lpar \/ c = rpar -> comment_text text = true ->
+    lex_sim (lex ([c] ++ line_comment text ++ rest)) (lex ([c] ++ rest)).
+Proof. exact lex_insert_comment_after_paren. Qed.
+Print Assumptions C04_line_comment_after_parenthesis.
+
+(* command-name case: the aggregator reads names only through lower_ascii *)
+Theorem C04_case_invariance :
+  forall trigger strip_fn strip_mac strip_mem (g : str -> str),
+    (forall n, lower_ascii (g n) = lower_ascii n) ->
+    forall fl f,
+      aggregate fl trigger strip_fn strip_mac strip_mem (recase_file g f)
+      = aggregate fl trigger strip_fn strip_mac strip_mem f.
+Proof. exact aggregate_recase. Qed.
+Print Assumptions C04_case_invariance.
+
+Theorem C04_upper_casing_is_such_a_recasing :
+  forall n, lower_ascii (map upper_char_ascii n) = lower_ascii n.
+Proof. exact lower_ascii_upper. Qed.
+Print Assumptions C04_upper_casing_is_such_a_recasing.
+
+(* re-indenting a doccomment block uniformly with spaces or tabs *)
+Theorem C04_reindent_invariance :
+  forall ind1 ind2 L, forallb is_sptab' ind1 = true -> forallb is_sptab' ind2 = true ->
+    clean_doc_lines (canon_lines ind1 L) = clean_doc_lines (canon_lines ind2 L).
+Proof. exact reindent_invariance. Qed.
+Print Assumptions C04_reindent_invariance.
